@@ -74,6 +74,7 @@ type World struct {
 
 	mintInitialized bool
 	halted          string
+	focus           string // "" = all messages evenly; "dispute" = histories directed at dispute rounds, votes, execution and claims
 }
 
 const loyaPerTRB = 1_000_000
@@ -452,6 +453,16 @@ func (w *World) genOp() genOp {
 	s := w.s
 	a := w.randAcct()
 	addr := w.accts[a].String()
+	if w.focus == "dispute" && r.Intn(2) == 0 {
+		switch r.Intn(6) {
+		case 0, 1:
+			return w.genDisputeOp(a)
+		case 2, 3:
+			return w.genVoteOp(a)
+		default:
+			return w.genClaimOp(a)
+		}
+	}
 	switch r.Intn(30) {
 	case 0, 1, 2:
 		qd := pick(r, w.queries...)
@@ -773,6 +784,41 @@ func (w *World) genDisputeOp(a int) genOp {
 			_, err := w.disputeMS.AddFeeToDispute(ctx, &disputetypes.MsgAddFeeToDispute{Creator: addr, DisputeId: id, Amount: w.coin(amt), PayFromBond: bond})
 			return err
 		}}
+	}
+	if w.focus == "dispute" && len(w.disputes) > 0 && r.Intn(2) == 0 {
+		// a further round of an existing dispute: the same report and category again
+		id := pick(r, w.disputes...)
+		for _, i := range r.Perm(len(w.disputes)) {
+			if d, err := w.s.Disputekeeper.Disputes.Get(w.ctx, w.disputes[i]); err == nil && d.DisputeStatus == disputetypes.Unresolved {
+				id = w.disputes[i]
+				break
+			}
+		}
+		if d, err := w.s.Disputekeeper.Disputes.Get(w.ctx, id); err == nil {
+			rep := d.InitialEvidence
+			fee := pick(r, d.SlashAmount.BigInt(), d.DisputeFee.BigInt(), bquo(d.SlashAmount.BigInt(), bi(10)), bi(1))
+			if fee.Sign() <= 0 {
+				fee = bi(1)
+			}
+			return genOp{name: "ProposeDispute", signer: a, roles: w.backersOf(rep), run: func(ctx sdk.Context) error {
+				_, err := w.disputeMS.ProposeDispute(ctx, &disputetypes.MsgProposeDispute{Creator: addr, Report: &rep, DisputeCategory: d.DisputeCategory, Fee: w.coin(fee), PayFromBond: false})
+				if err == nil {
+					ds, _ := w.s.Disputekeeper.GetOpenDisputes(ctx)
+					for _, id := range ds {
+						known := false
+						for _, k := range w.disputes {
+							if k == id {
+								known = true
+							}
+						}
+						if !known {
+							w.disputes = append(w.disputes, id)
+						}
+					}
+				}
+				return err
+			}}
+		}
 	}
 	rep := pick(r, w.recent...)
 	if r.Intn(6) == 0 {
